@@ -230,6 +230,39 @@ theorem specInterp_accepts_model (t : Tol) (ht : 0 ≤ t.abs_) (rows rows' : Lis
     rw [this]
     exact closeP_self t ht _
 
+/-- the oracle used for the other spline kinds (step kinds, quadratic, cubic) asks a subset of what `specInterp`
+    asks: whatever `specInterp` accepts, it accepts (in both modes: `oneSided` only weakens one check) -/
+theorem specInterpAnyKind_of_specInterp (rows : List (Row ℚ Int)) (qchr : List Int) (qphy : List ℚ)
+    (out out2 : List (Option ℚ)) (oneSided : Bool) (t : Tol)
+    (h : (specInterp rows qchr qphy out out2 t).1 = true) :
+    (specInterpAnyKind rows qchr qphy out out2 oneSided t).1 = true := by
+  unfold specInterp at h
+  unfold specInterpAnyKind
+  by_cases hs : (qphy.length != qchr.length || out.length != qchr.length || out2.length != qchr.length) = true
+  · simp only [hs, if_true] at h
+    exact absurd h (by simp)
+  · simp only [hs, Bool.false_eq_true, if_false] at h ⊢
+    rw [checks_fst] at h ⊢
+    intro p hp
+    simp only [List.mem_cons, List.not_mem_nil, or_false] at hp
+    rcases hp with rfl | rfl | rfl
+    · exact h _ (by simp)
+    · have hm := h ("absent chromosome <-> missing", (queries qchr qphy out).all (missingOk rows)) (by simp)
+      simp only [List.all_eq_true] at hm ⊢
+      intro q hq
+      have := hm q hq
+      cases oneSided with
+      | false => simpa using this
+      | true =>
+        simp only [if_true, Bool.or_eq_true, Bool.not_eq_true']
+        unfold missingOk at this
+        by_cases he : (onChr rows q.1).isEmpty = true
+        · right
+          rw [he] at this
+          simpa using this.symm
+        · left; simpa using he
+    · exact h _ (by simp)
+
 /-! ### an output accepted at zero tolerance satisfies the theorems' conclusions -/
 
 /-- what the interpolation clause of the property says about one reported position -/
